@@ -770,7 +770,7 @@ func main() {
 	srcs := []string{
 		"internal/transfer/multistream.go", "internal/transfer/manifestproto.go", "internal/transfer/sidecar.go",
 		"internal/transfer/controlproto.go", "internal/transfer/fileproto.go", "internal/transfer/hash.go",
-		"internal/transfer/params.go", "internal/app/transfer_concurrency.go",
+		"internal/transfer/params.go", "internal/app/transfer_concurrency.go", "internal/peers/hub.go",
 	}
 	for _, s := range srcs {
 		load(s)
@@ -880,6 +880,7 @@ func main() {
 	if failed {
 		os.Exit(1)
 	}
+	write("HubLocks.v", lockSkeletons(files["internal/peers/hub.go"], "Hub", "h.mu", []string{"h.sessions", "h.byPeerID", "sessionPeers", "peerIDMap"}))
 	write("Consts.v", cb.String())
 	write("Geometry.v", gb.String())
 }
